@@ -93,57 +93,7 @@ func checkC01(p *Prog, c *Check) {
 		c.Ok(rule, key, p.siteOf(call), shortFn(add), "computeEpochSecretKey(append(pending, share))", append(used, "FORALL i: pending[i].Sender != share.Sender", "list = append(e.SecretShares[Hex(id)], share)")...)
 	}
 
-	// R2b: computeEpochSecretKey passes index i with share i, unreordered, with the threshold
-	rule = "C01-R2b"
-	c.Analysed(shortFn(compute))
-	cfi := p.Info(compute)
-	lib := callsTo(compute, "shcrypto.ComputeEpochSecretKey")
-	c.Floor(rule, len(lib), 1)
-	for i, ci := range lib {
-		key := fmt.Sprintf("ComputeEpochSecretKey#%d", i+1)
-		args := ci.Common().Args
-		b := Binds{"e": cfi.T(compute.Params[0]), "sh": cfi.T(compute.Params[1])}
-		mi := cfi.asMapOver(p, args[0])
-		ms := cfi.asMapOver(p, args[1])
-		ok := mi != nil && ms != nil && mi.Loop.Header == ms.Loop.Header && len(mi.Elems) == 1 && len(ms.Elems) == 1 && mi.Loop.Lo == 0 &&
-			ParsePat("len($sh)").Match(mi.Loop.Bound, copyBinds(b))
-		reason := "the index list and the share list are not built element by element in one loop over all given shares"
-		if ok {
-			b["i"] = mi.Loop.Idx
-			if !ParsePat("$sh[$i].Sender").Match(mi.Elems[0], copyBinds(b)) || !ParsePat("$sh[$i].Share").Match(ms.Elems[0], copyBinds(b)) {
-				ok = false
-				reason = "element i of the lists is not (shares[i].Sender, shares[i].Share): " + mi.Elems[0].s + " / " + ms.Elems[0].s
-			}
-		}
-		if ok {
-			// neither list is handed to anything else (sorting one of two parallel lists breaks the pairing)
-			for _, phi := range []*ssa.Phi{mi.Phi, ms.Phi} {
-				for _, r := range *phi.Referrers() {
-					if r == ssa.Instruction(ci.(*ssa.Call)) {
-						continue
-					}
-					if ac, isCall := r.(*ssa.Call); isCall {
-						if bi, isB := ac.Common().Value.(*ssa.Builtin); isB && bi.Name() == "append" {
-							continue
-						}
-					}
-					if _, isPhi := r.(*ssa.Phi); isPhi {
-						continue
-					}
-					if _, isDbg := r.(*ssa.DebugRef); isDbg {
-						continue
-					}
-					ok = false
-					reason = "a parallel list is used by `" + r.String() + "` before interpolation (may reorder one list against the other)"
-				}
-			}
-		}
-		if ok && !ParsePat("$e.Threshold").Match(cfi.T(args[2]), copyBinds(b)) {
-			ok = false
-			reason = "threshold argument is not the eon's threshold"
-		}
-		c.Result(ok, rule, key, p.siteOf(ci), shortFn(compute), "shcrypto.ComputeEpochSecretKey(indices, shares, threshold)", reason, "indices[i]=shares[i].Sender, shares[i]=shares[i].Share, same loop, no other use")
-	}
+	c01Pairing(p, c, "C01-R2b")
 
 	// R3: ownership and keying of the maps
 	rule = "C01-R3"
@@ -356,4 +306,63 @@ func unbox(v ssa.Value) ssa.Value {
 			return v
 		}
 	}
+}
+
+// c01Pairing: computeEpochSecretKey passes index i with share i, unreordered, with the threshold.
+func c01Pairing(p *Prog, c *Check, rule string) {
+	compute, err := p.Func("keyper/epochkg.EpochKG.computeEpochSecretKey")
+	if !c.Must(err) {
+		return
+	}
+	// R2b: computeEpochSecretKey passes index i with share i, unreordered, with the threshold
+	c.Analysed(shortFn(compute))
+	cfi := p.Info(compute)
+	lib := callsTo(compute, "shcrypto.ComputeEpochSecretKey")
+	c.Floor(rule, len(lib), 1)
+	for i, ci := range lib {
+		key := fmt.Sprintf("ComputeEpochSecretKey#%d", i+1)
+		args := ci.Common().Args
+		b := Binds{"e": cfi.T(compute.Params[0]), "sh": cfi.T(compute.Params[1])}
+		mi := cfi.asMapOver(p, args[0])
+		ms := cfi.asMapOver(p, args[1])
+		ok := mi != nil && ms != nil && mi.Loop.Header == ms.Loop.Header && len(mi.Elems) == 1 && len(ms.Elems) == 1 && mi.Loop.Lo == 0 &&
+			ParsePat("len($sh)").Match(mi.Loop.Bound, copyBinds(b))
+		reason := "the index list and the share list are not built element by element in one loop over all given shares"
+		if ok {
+			b["i"] = mi.Loop.Idx
+			if !ParsePat("$sh[$i].Sender").Match(mi.Elems[0], copyBinds(b)) || !ParsePat("$sh[$i].Share").Match(ms.Elems[0], copyBinds(b)) {
+				ok = false
+				reason = "element i of the lists is not (shares[i].Sender, shares[i].Share): " + mi.Elems[0].s + " / " + ms.Elems[0].s
+			}
+		}
+		if ok {
+			// neither list is handed to anything else (sorting one of two parallel lists breaks the pairing)
+			for _, phi := range []*ssa.Phi{mi.Phi, ms.Phi} {
+				for _, r := range *phi.Referrers() {
+					if r == ssa.Instruction(ci.(*ssa.Call)) {
+						continue
+					}
+					if ac, isCall := r.(*ssa.Call); isCall {
+						if bi, isB := ac.Common().Value.(*ssa.Builtin); isB && bi.Name() == "append" {
+							continue
+						}
+					}
+					if _, isPhi := r.(*ssa.Phi); isPhi {
+						continue
+					}
+					if _, isDbg := r.(*ssa.DebugRef); isDbg {
+						continue
+					}
+					ok = false
+					reason = "a parallel list is used by `" + r.String() + "` before interpolation (may reorder one list against the other)"
+				}
+			}
+		}
+		if ok && !ParsePat("$e.Threshold").Match(cfi.T(args[2]), copyBinds(b)) {
+			ok = false
+			reason = "threshold argument is not the eon's threshold"
+		}
+		c.Result(ok, rule, key, p.siteOf(ci), shortFn(compute), "shcrypto.ComputeEpochSecretKey(indices, shares, threshold)", reason, "indices[i]=shares[i].Sender, shares[i]=shares[i].Share, same loop, no other use")
+	}
+
 }
